@@ -580,3 +580,49 @@ func (sc *Scenario) Describe() map[string]interface{} {
 	}
 	return map[string]interface{}{"exchanges": ex, "schedule": strings.Join(sch, " "), "split_writes": sc.Split, "behaviour": sc.Origin}
 }
+
+// SimulateEnv samples environment scripts from H1Env.tla (the environment of Http1Conn on
+// its own), which reaches long connections that random walks over the full system rarely do.
+func SimulateEnv(c *core.Ctx, name string, maxReq int, faults, mods, connectFirst bool, n int) ([]Env, error) {
+	cfg := fmt.Sprintf("SPECIFICATION Spec\nCONSTANTS\n  MaxReq = %d\n  Faults = %s\n  Mods = %s\n  ConnectFirst = %s\n", maxReq, tf(faults), tf(mods), tf(connectFirst))
+	os.WriteFile(filepath.Join(c.Work, name+".cfg"), []byte(cfg), 0o644)
+	base := filepath.Join(c.Work, name+"_sim")
+	res, err := core.RunTLC(c.Work, core.TLCOpts{Module: "H1Env", Cfg: name + ".cfg", Workers: 1, Timeout: 10 * time.Minute,
+		Args: []string{"-simulate", fmt.Sprintf("file=%s,num=%d", base, n), "-depth", fmt.Sprint(maxReq + 3), "-seed", fmt.Sprint(c.Seed)}})
+	if err != nil {
+		return nil, err
+	}
+	if res.Infra() || res.Violated != "" {
+		return nil, fmt.Errorf("simulation of H1Env failed: %s", res.Tail(20))
+	}
+	files, _ := filepath.Glob(base + "_*")
+	sort.Strings(files)
+	var out []Env
+	for _, f := range files {
+		st, err := core.ParseSimFile(f)
+		os.Remove(f)
+		if err != nil || len(st) == 0 {
+			continue
+		}
+		script := st[len(st)-1].State["script"]
+		e := Env{CloseAt: -1}
+		var key []string
+		for i, r := range script.Elems {
+			e.Close = append(e.Close, r.Get("close").B)
+			e.Connect = append(e.Connect, r.Get("connect").B)
+			e.RqB = append(e.RqB, r.Get("rqb").S)
+			e.RsB = append(e.RsB, r.Get("rsb").S)
+			e.Origin = append(e.Origin, r.Get("origin").S)
+			if r.Get("ahead").Int() == 1 && i > 0 {
+				e.Sched = append(e.Sched, ep.SchedOp{Op: "wait", I: i})
+			}
+			e.Sched = append(e.Sched, ep.SchedOp{Op: "send", I: i + 1})
+			key = append(key, fmt.Sprintf("[%v %v %s/%s %s a%d]", r.Get("close").B, r.Get("connect").B, r.Get("rqb").S, r.Get("rsb").S, r.Get("origin").S, r.Get("ahead").Int()))
+		}
+		e.Key = strings.Join(key, "")
+		if len(e.Close) > 0 {
+			out = append(out, e)
+		}
+	}
+	return out, nil
+}
